@@ -170,6 +170,10 @@ fn fmt_resp(r: &AppResponse) -> String {
 // ------------------------------------------------------------------------------------------------
 // messages
 
+fn one_coin(tok: &str) -> Option<Coin> {
+    parse_coins(tok).into_iter().next()
+}
+
 fn reply_on(tok: &str) -> ReplyOn {
     match tok {
         "always" => ReplyOn::Always,
@@ -223,6 +227,16 @@ pub fn to_msg(m: &Sx) -> Option<CosmosMsg> {
         .into(),
         "upd" => WasmMsg::UpdateAdmin { contract_addr: real(l.get(1)?.atom()), admin: real(l.get(2)?.atom()) }.into(),
         "clr" => WasmMsg::ClearAdmin { contract_addr: real(l.get(1)?.atom()) }.into(),
+        "deleg" => cosmwasm_std::StakingMsg::Delegate { validator: l.get(1)?.atom().to_string(), amount: one_coin(l.get(2)?.atom())? }.into(),
+        "undeleg" => cosmwasm_std::StakingMsg::Undelegate { validator: l.get(1)?.atom().to_string(), amount: one_coin(l.get(2)?.atom())? }.into(),
+        "redeleg" => cosmwasm_std::StakingMsg::Redelegate {
+            src_validator: l.get(1)?.atom().to_string(),
+            dst_validator: l.get(2)?.atom().to_string(),
+            amount: one_coin(l.get(3)?.atom())?,
+        }
+        .into(),
+        "withdraw" => cosmwasm_std::DistributionMsg::WithdrawDelegatorReward { validator: l.get(1)?.atom().to_string() }.into(),
+        "setwd" => cosmwasm_std::DistributionMsg::SetWithdrawAddress { address: real(l.get(1)?.atom()) }.into(),
         "send" => BankMsg::Send { to_address: real(l.get(1)?.atom()), amount: parse_coins(l.get(2)?.atom()) }.into(),
         "burn" => BankMsg::Burn { amount: parse_coins(l.get(1)?.atom()) }.into(),
         "ext" => {
@@ -353,6 +367,22 @@ fn interp(
             "qcode" => notes.push(match a(1).parse::<u64>().ok().map(|id| querier.query_wasm_code_info(id)) {
                 Some(Ok(c)) => format!("qcode={},{}", c.creator, hex(c.checksum.as_slice())),
                 _ => "qcode=err".into(),
+            }),
+            "qdeleg" => notes.push(match querier.query_delegation(real(a(1)), a(2)) {
+                Ok(Some(d)) => format!("qdeleg={}:{}", d.amount.amount, fmt_coins(&d.accumulated_rewards)),
+                Ok(None) => "qdeleg=none".into(),
+                Err(_) => "qdeleg=err".into(),
+            }),
+            "qalldeleg" => notes.push(match querier.query_all_delegations(real(a(1))) {
+                Ok(ds) => format!(
+                    "qalldeleg={}",
+                    ds.iter().map(|d| format!("{}:{}", d.validator, d.amount.amount)).collect::<Vec<_>>().join(",")
+                ),
+                Err(_) => "qalldeleg=err".into(),
+            }),
+            "qbonded" => notes.push(match querier.query_bonded_denom() {
+                Ok(d) => format!("qbonded={}", d),
+                Err(_) => "qbonded=err".into(),
             }),
             "sub" => {
                 let id: u64 = a(1).parse().unwrap_or(0);
@@ -562,6 +592,7 @@ pub fn dump<A: Api>(app: &AppOf<A>) -> String {
     let mut contracts: BTreeMap<String, String> = BTreeMap::new();
     let mut store: BTreeMap<String, Vec<(Vec<u8>, Vec<u8>)>> = BTreeMap::new();
     let mut other: Vec<String> = vec![];
+    let mut stk = StkDump::default();
     for (k, v) in app.storage().range(None, None, Order::Ascending) {
         if let Some(a) = strip(&k, b"\x00\x04bank\x00\x08balances") {
             let coins: Vec<Coin> = serde_json::from_slice(&v).unwrap_or_default();
@@ -596,6 +627,18 @@ pub fn dump<A: Api>(app: &AppOf<A>) -> String {
                 }
             }
         }
+        if let Some(rest) = strip(&k, b"\x00\x07staking") {
+            if stk.absorb_staking(rest, &v) {
+                continue;
+            }
+        }
+        if let Some(rest) = strip(&k, b"\x00\x0cdistribution") {
+            if let Some(a) = strip(rest, b"\x00\x10withdraw_address") {
+                let to: String = serde_json::from_slice(&v).unwrap_or_default();
+                stk.wd.push(format!("{}>{}", String::from_utf8_lossy(a), to));
+                continue;
+            }
+        }
         // set_block/update_block run the staking module's process_queue, which persists the
         // (here always empty) unbonding queue; an empty queue is the same state as no queue
         if k == b"\x00\x07stakingunbonding_queue" && v == b"[]" {
@@ -605,7 +648,124 @@ pub fn dump<A: Api>(app: &AppOf<A>) -> String {
     }
     let j = |m: &BTreeMap<String, String>| m.iter().map(|(k, v)| format!("{}={}", k, v)).collect::<Vec<_>>().join(";");
     let st = store.iter().map(|(k, v)| format!("{}={}", k, fmt_records(v))).collect::<Vec<_>>().join(";");
-    format!("bank{{{}}} contracts{{{}}} store{{{}}} other{{{}}}", j(&bank), j(&contracts), st, other.join(";"))
+    format!("bank{{{}}} contracts{{{}}} store{{{}}} other{{{}}}{}", j(&bank), j(&contracts), st, other.join(";"), stk.render())
+}
+
+/// decoded staking / distribution state (present in the dump only when the modules hold any record)
+#[derive(Default)]
+struct StkDump {
+    info: Option<String>,
+    vals: BTreeMap<u32, String>,
+    stakes: Vec<String>,
+    vinfo: Vec<String>,
+    queue: Option<String>,
+    wd: Vec<String>,
+}
+
+impl StkDump {
+    /// `rest` = raw key below the `staking` namespace; returns false when the key is not understood
+    fn absorb_staking(&mut self, rest: &[u8], v: &[u8]) -> bool {
+        let j: serde_json::Value = serde_json::from_slice(v).unwrap_or(serde_json::Value::Null);
+        let dec = |x: &serde_json::Value| -> String {
+            // Decimal is serialised as a decimal string; print its atomics (18 fractional digits)
+            x.as_str()
+                .and_then(|s| s.parse::<cosmwasm_std::Decimal>().ok())
+                .map(|d| d.atomics().to_string())
+                .unwrap_or_else(|| "?".into())
+        };
+        let secs = |x: &serde_json::Value| -> String {
+            x.as_str().and_then(|s| s.parse::<u128>().ok()).map(|n| (n / 1_000_000_000).to_string()).unwrap_or_else(|| "?".into())
+        };
+        if rest == b"staking_info" {
+            self.info = Some(format!("{}:{}:{}", j["bonded_denom"].as_str().unwrap_or("?"), j["unbonding_time"], dec(&j["apr"])));
+            return true;
+        }
+        if rest == b"unbonding_queue" {
+            let items: Vec<String> = j
+                .as_array()
+                .map(|a| {
+                    a.iter()
+                        .map(|u| {
+                            format!(
+                                "{}/{}:{}:{}",
+                                u["delegator"].as_str().unwrap_or("?"),
+                                u["validator"].as_str().unwrap_or("?"),
+                                u["amount"].as_str().unwrap_or("?"),
+                                secs(&u["payout_at"])
+                            )
+                        })
+                        .collect()
+                })
+                .unwrap_or_default();
+            if !items.is_empty() {
+                self.queue = Some(items.join(","));
+            }
+            return true;
+        }
+        if let Some(r) = strip(rest, b"\x00\x06stakes") {
+            if r.len() >= 2 {
+                let n = ((r[0] as usize) << 8) | r[1] as usize;
+                if r.len() >= 2 + n {
+                    self.stakes.push(format!(
+                        "{}/{}:{}:{}",
+                        String::from_utf8_lossy(&r[2..2 + n]),
+                        String::from_utf8_lossy(&r[2 + n..]),
+                        dec(&j["stake"]),
+                        dec(&j["rewards"])
+                    ));
+                    return true;
+                }
+            }
+            return false;
+        }
+        if let Some(r) = strip(rest, b"\x00\x0evalidator_info") {
+            let mut stakers: Vec<String> =
+                j["stakers"].as_array().map(|a| a.iter().map(|x| x.as_str().unwrap_or("?").to_string()).collect()).unwrap_or_default();
+            stakers.sort();
+            self.vinfo.push(format!(
+                "{}:{}:{}:{}",
+                String::from_utf8_lossy(r),
+                j["stake"].as_str().unwrap_or("?"),
+                secs(&j["last_rewards_calculation"]),
+                stakers.join("+")
+            ));
+            return true;
+        }
+        if strip(rest, b"\x00\x0dvalidator_map").is_some() {
+            return true; // same records as the `validators` deque
+        }
+        if let Some(r) = strip(rest, b"\x00\x0avalidators") {
+            if r == b"h" || r == b"t" {
+                return true;
+            }
+            if r.len() == 4 {
+                self.vals.insert(
+                    u32::from_be_bytes([r[0], r[1], r[2], r[3]]),
+                    format!("{}:{}", j["address"].as_str().unwrap_or("?"), dec(&j["commission"])),
+                );
+                return true;
+            }
+        }
+        false
+    }
+
+    fn render(mut self) -> String {
+        if self.info.is_none() && self.vals.is_empty() && self.stakes.is_empty() && self.vinfo.is_empty() && self.queue.is_none() && self.wd.is_empty() {
+            return String::new();
+        }
+        self.stakes.sort();
+        self.vinfo.sort();
+        self.wd.sort();
+        format!(
+            " stk{{info={};vals={};stakes={};vinfo={};queue={};wd={}}}",
+            self.info.unwrap_or_else(|| "TOKEN:60:100000000000000000".into()),
+            self.vals.values().cloned().collect::<Vec<_>>().join(","),
+            self.stakes.join(","),
+            self.vinfo.join(","),
+            self.queue.unwrap_or_default(),
+            self.wd.join(",")
+        )
+    }
 }
 
 fn raw_hash<A: Api>(app: &AppOf<A>) -> String {
@@ -822,6 +982,45 @@ fn exec_wasm_on<A: Api>(mut apps: Vec<AppOf<A>>, sym_fn: fn(&AppOf<A>, &str) -> 
                 let m = BankSudo::Mint { to_address: real(a(1)), amount: parse_coins(a(2)) };
                 outcome(guarded(|| app.sudo(m.into())), |r| format!("ok {}", fmt_resp(&r)))
             }
+            "stk-setup" => {
+                let info = cw_multi_test::StakingInfo {
+                    bonded_denom: a(1).to_string(),
+                    unbonding_time: a(2).parse().unwrap_or(60),
+                    apr: cosmwasm_std::Decimal::new(Uint128::new(a(3).parse().unwrap_or(0))),
+                };
+                outcome(guarded(|| app.init_modules(|router, _, storage| router.staking.setup(storage, info))), |_| "ok".into())
+            }
+            "stk-val" => {
+                let val = cosmwasm_std::Validator::create(
+                    a(1).to_string(),
+                    cosmwasm_std::Decimal::new(Uint128::new(a(2).parse().unwrap_or(0))),
+                    cosmwasm_std::Decimal::one(),
+                    cosmwasm_std::Decimal::one(),
+                );
+                let block = app.block_info();
+                outcome(
+                    guarded(|| app.init_modules(|router, api, storage| router.staking.add_validator(api, storage, &block, val))),
+                    |_| "ok".into(),
+                )
+            }
+            "sudo-slash" => {
+                let m = cw_multi_test::StakingSudo::Slash {
+                    validator: a(1).to_string(),
+                    percentage: cosmwasm_std::Decimal::new(Uint128::new(a(2).parse().unwrap_or(0))),
+                };
+                outcome(guarded(|| app.sudo(m.into())), |r| format!("ok {}", fmt_resp(&r)))
+            }
+            "q-deleg" => outcome(
+                guarded(|| app.wrap().query_delegation(real(a(1)), a(2)).map_err(Into::into)),
+                |d| match d {
+                    Some(d) => format!("{}:{}", d.amount.amount, fmt_coins(&d.accumulated_rewards)),
+                    None => "none".into(),
+                },
+            ),
+            "q-alldeleg" => outcome(guarded(|| app.wrap().query_all_delegations(real(a(1))).map_err(Into::into)), |ds| {
+                let v: Vec<String> = ds.iter().map(|d| format!("{}:{}", d.validator, d.amount.amount)).collect();
+                if v.is_empty() { "-".to_string() } else { v.join(",") }
+            }),
             "sudo-wasm" => {
                 let m = SudoMsg::Wasm(WasmSudo {
                     contract_addr: Addr::unchecked(real(a(1))),
